@@ -167,6 +167,22 @@ def wl_history(ctx, rng, i):
                 ctx.count("refusals")
             if looks_up(kind, ver, name) is not orig or orig is None:
                 ctx.violation("existing-registration-replaced", "built-in %r (%s) no longer maps to its class" % (name, ver), dict(w, name=name))
+            if ver == "2.1" and kind in ("object", "observable"):
+                # 2.1 objects and observables are both top-level types: a name held by the one kind is taken for the other too
+                other_kind = "observable" if kind == "object" else "object"
+                cands = [BUILTIN[other_kind]] + [k[2] for k in model if k[0] == ver and k[1] == other_kind]
+                name2 = rng.choice(cands)
+                orig2 = looks_up(other_kind, ver, name2)
+                ctx.ev()
+                ctx.count("cross_kind_registrations")
+                try:
+                    register(kind, ver, name2)
+                    ctx.violation("name-of-other-top-level-kind-accepted", "registering a 2.1 %s named %r, which is a registered %s, was accepted" % (kind, name2, other_kind),
+                                  dict(w, name=name2, kind=kind, taken_by=other_kind))
+                except family():
+                    ctx.count("refusals")
+                if looks_up(other_kind, ver, name2) is not orig2 or looks_up(kind, ver, name2) is not None:
+                    ctx.violation("existing-registration-replaced", "%r (%s %s) is shadowed or replaced after the attempt" % (name2, ver, other_kind), dict(w, name=name2))
             ctx.nontrivial(kind, ver, step)
         elif step == "other-version":
             taken = [k for k in model if k[1] == kind]
